@@ -23,6 +23,11 @@ func (c *ClientChannel) receiveSessionFromServer(ctx context.Context) (*Session,
 		return nil, fmt.Errorf("receive session: %w", err)
 	}
 
+	if current := c.State(); ses.State.Step() < current.Step() {
+		// The server cannot move the session back to a previous state
+		return nil, fmt.Errorf("receive session: invalid state transition from %v to %v", current, ses.State)
+	}
+
 	if ses.State == SessionStateEstablished {
 		c.localNode = ses.To
 		c.remoteNode = ses.From
